@@ -1,5 +1,6 @@
 import Flowjaxv.Proofs.DistTheory
 import Flowjaxv.Proofs.Leaves
+import Flowjaxv.Proofs.Flows
 /-!
 # C03 — transformed densities obey change of variables on both evaluation paths
 
@@ -71,5 +72,145 @@ theorem normal_instance {K : Type} (base : Distn ℝ Unit K ℝ) (hc : base.Cons
   refine Gen.transformed_consistent _ (Leaves.affine_lawful _ (by norm_num)) ?_ hc (fun _ _ => trivial)
   intro x _ c
   simp [Affine.toBij, Affine.inverse_and_log_det, Affine.transform_and_log_det]
+
+/-! ## premade flows (`flowjax/flows.py`): the `Transformed` every factory returns, both orientations
+
+`Flows.couplingFlow tf dim key n invert base` etc. are the GENERATED factory bodies (`Gen/Flows.lean`):
+`Transformed(base_dist, Invert(Scan(layers)) if invert else Scan(layers))`.  For EVERY number of layers, dimension, layer
+parameter values, permutation, `invert` flag, base distribution and condition.  Helpers: `Proofs/Flows.lean`. -/
+section PremadeFlows
+open Masks Flows FlowsPf
+variable {K : Type}
+
+/-- the inverse pass of a whole flow returns minus the forward log-det at the preimage (every `n`, both orientations) -/
+theorem coupling_flow_ld_antisym (tf : List ℝ → Bij ℝ Unit ℝ) (htf : ∀ ps, (tf ps).Lawful univ univ)
+    (hta : ∀ ps, (tf ps).LdAntisym univ) (dim : ℕ) (_hdim : 0 < dim) (key : ℕ → (List ℝ → List ℝ) × List ℕ) (n : ℕ) (invert : Bool)
+    (hperm : ∀ i < n, PermKeyOK dim (key i).2) : (couplingFlowBij tf dim key n invert).LdAntisym (Vec dim) :=
+  FlowsPf.coupling_flow_ldAntisym tf htf hta dim key n invert hperm
+
+theorem maf_flow_ld_antisym (tf : List ℝ → Bij ℝ Unit ℝ) (htf : ∀ ps, (tf ps).Lawful univ univ) (dim : ℕ) (_hdim : 0 < dim)
+    (key : ℕ → MafNet ℝ × List ℕ) (n : ℕ) (invert : Bool)
+    (hnet : ∀ i < n, (key i).1.WellShaped ∧ (key i).1.dim = dim) (hperm : ∀ i < n, PermKeyOK dim (key i).2) :
+    (mafFlowBij tf dim key n invert).LdAntisym (Vec dim) :=
+  FlowsPf.maf_flow_ldAntisym tf htf dim key n invert hnet hperm
+
+theorem planar_flow_ld_antisym (dim : ℕ) {s : ℝ} (hs0 : 0 < s) (hs1 : s ≤ 1)
+    (key : ℕ → (List ℝ → List ℝ) × List ℕ) (n : ℕ) (invert : Bool)
+    (hpar : ∀ i < n, PlanarOK dim (key i).1) (hperm : ∀ i < n, PermKeyOK dim (key i).2) :
+    (planarFlowBij dim s key n invert).LdAntisym (Vec dim) :=
+  FlowsPf.planar_flow_ldAntisym dim hs0 hs1 key n invert hpar hperm
+
+theorem bnaf_flow_ld_antisym (dim depth bd : ℕ) (act : ℝ → ℝ) (hact : StrictMono act)
+    (inverter : (List ℝ → List ℝ → List ℝ) → List ℝ → List ℝ → List ℝ)
+    (key : ℕ → BnafNet ℝ × List ℕ) (n : ℕ) (invert : Bool)
+    (hnet : ∀ i < n, NetLawful.BnafOK dim depth bd (key i).1.layers (key i).1.condLinear ∧
+      InverterExact dim inverter (bnafTransform act (key i).1.layers (key i).1.condLinear))
+    (hperm : ∀ i < n, PermKeyOK dim (key i).2) :
+    (bnafFlowBij dim act inverter key n invert).LdAntisym (Vec dim) :=
+  FlowsPf.bnaf_flow_ldAntisym dim depth bd act hact inverter key n invert hnet hperm
+
+/-- **`flow_log_prob_change_of_variables`** — the three clauses of C03 for `Transformed(base, b)` whenever the flow's
+bijection `b` is lawful on `D` with antisymmetric log-dets (which the four theorems below discharge per factory):
+`log_prob(x) = base log-density at inverse(x) + inverse log-det`; `sample(key) = transform(base sample(key))`;
+`sample_and_log_prob` = (that point, base log-prob − forward log-det); and the returned log-prob equals `log_prob` at the
+returned sample when the base is consistent and samples in `D`. -/
+theorem flow_log_prob_change_of_variables {b : VBij ℝ} {D : Set (List ℝ)} (hb : b.Lawful D D) (ha : b.LdAntisym D)
+    (base : VDist K ℝ) :
+    (∀ x c, (transformedOf base b).logProb x c = base.logProb (b.inv x c) c + (b.invLd x c).2) ∧
+    (∀ k c, (transformedOf base b).sample k c = b.fwd (base.sample k c) c) ∧
+    (∀ k c, (transformedOf base b).sampleLp k c
+        = (b.fwd (base.sampleLp k c).1 c, (base.sampleLp k c).2 - (b.fwdLd (base.sampleLp k c).1 c).2)) ∧
+    (base.Consistent → (∀ k c, base.sample k c ∈ D) → (transformedOf base b).Consistent) :=
+  FlowsPf.flow_change_of_variables hb ha base
+
+/-- coupling flows (any transformer family lawful `ℝ ↔ ℝ` with antisymmetric log-dets: the default
+`_affine_with_min_scale()`, `Affine()`, splines), conditional or not, either orientation (guard `0 < dim`: see `C01.coupling_flow_lawful`) -/
+theorem coupling_flow_change_of_variables (tf : List ℝ → Bij ℝ Unit ℝ) (htf : ∀ ps, (tf ps).Lawful univ univ)
+    (hta : ∀ ps, (tf ps).LdAntisym univ) (dim : ℕ) (_hdim : 0 < dim) (key : ℕ → (List ℝ → List ℝ) × List ℕ) (n : ℕ) (invert : Bool)
+    (hperm : ∀ i < n, PermKeyOK dim (key i).2) (base : VDist K ℝ) :
+    let b := couplingFlowBij tf dim key n invert
+    let d := couplingFlow tf dim key n invert base
+    (∀ x c, d.logProb x c = base.logProb (b.inv x c) c + (b.invLd x c).2) ∧
+    (∀ k c, d.sample k c = b.fwd (base.sample k c) c) ∧
+    (∀ k c, d.sampleLp k c = (b.fwd (base.sampleLp k c).1 c, (base.sampleLp k c).2 - (b.fwdLd (base.sampleLp k c).1 c).2)) ∧
+    (base.Consistent → (∀ k c, base.sample k c ∈ Vec dim) → d.Consistent) :=
+  FlowsPf.flow_change_of_variables (FlowsPf.coupling_flow_lawful tf htf dim key n invert hperm)
+    (FlowsPf.coupling_flow_ldAntisym tf htf hta dim key n invert hperm) base
+
+theorem maf_flow_change_of_variables (tf : List ℝ → Bij ℝ Unit ℝ) (htf : ∀ ps, (tf ps).Lawful univ univ) (dim : ℕ) (_hdim : 0 < dim)
+    (key : ℕ → MafNet ℝ × List ℕ) (n : ℕ) (invert : Bool)
+    (hnet : ∀ i < n, (key i).1.WellShaped ∧ (key i).1.dim = dim) (hperm : ∀ i < n, PermKeyOK dim (key i).2)
+    (base : VDist K ℝ) :
+    let b := mafFlowBij tf dim key n invert
+    let d := mafFlow tf dim key n invert base
+    (∀ x c, d.logProb x c = base.logProb (b.inv x c) c + (b.invLd x c).2) ∧
+    (∀ k c, d.sample k c = b.fwd (base.sample k c) c) ∧
+    (∀ k c, d.sampleLp k c = (b.fwd (base.sampleLp k c).1 c, (base.sampleLp k c).2 - (b.fwdLd (base.sampleLp k c).1 c).2)) ∧
+    (base.Consistent → (∀ k c, base.sample k c ∈ Vec dim) → d.Consistent) :=
+  FlowsPf.flow_change_of_variables (FlowsPf.maf_flow_lawful tf htf dim key n invert hnet hperm)
+    (FlowsPf.maf_flow_ldAntisym tf htf dim key n invert hnet hperm) base
+
+theorem planar_flow_change_of_variables (dim : ℕ) {s : ℝ} (hs0 : 0 < s) (hs1 : s ≤ 1)
+    (key : ℕ → (List ℝ → List ℝ) × List ℕ) (n : ℕ) (invert : Bool)
+    (hpar : ∀ i < n, PlanarOK dim (key i).1) (hperm : ∀ i < n, PermKeyOK dim (key i).2) (base : VDist K ℝ) :
+    let b := planarFlowBij dim s key n invert
+    let d := planarFlow dim s key n invert base
+    (∀ x c, d.logProb x c = base.logProb (b.inv x c) c + (b.invLd x c).2) ∧
+    (∀ k c, d.sample k c = b.fwd (base.sample k c) c) ∧
+    (∀ k c, d.sampleLp k c = (b.fwd (base.sampleLp k c).1 c, (base.sampleLp k c).2 - (b.fwdLd (base.sampleLp k c).1 c).2)) ∧
+    (base.Consistent → (∀ k c, base.sample k c ∈ Vec dim) → d.Consistent) :=
+  FlowsPf.flow_change_of_variables (FlowsPf.planar_flow_lawful dim hs0 hs1 key n invert hpar hperm)
+    (FlowsPf.planar_flow_ldAntisym dim hs0 hs1 key n invert hpar hperm) base
+
+theorem bnaf_flow_change_of_variables (dim depth bd : ℕ) (act : ℝ → ℝ) (hact : StrictMono act)
+    (inverter : (List ℝ → List ℝ → List ℝ) → List ℝ → List ℝ → List ℝ)
+    (key : ℕ → BnafNet ℝ × List ℕ) (n : ℕ) (invert : Bool)
+    (hnet : ∀ i < n, NetLawful.BnafOK dim depth bd (key i).1.layers (key i).1.condLinear ∧
+      InverterExact dim inverter (bnafTransform act (key i).1.layers (key i).1.condLinear))
+    (hperm : ∀ i < n, PermKeyOK dim (key i).2) (base : VDist K ℝ) :
+    let b := bnafFlowBij dim act inverter key n invert
+    let d := bnafFlow dim act inverter key n invert base
+    (∀ x c, d.logProb x c = base.logProb (b.inv x c) c + (b.invLd x c).2) ∧
+    (∀ k c, d.sample k c = b.fwd (base.sample k c) c) ∧
+    (∀ k c, d.sampleLp k c = (b.fwd (base.sampleLp k c).1 c, (base.sampleLp k c).2 - (b.fwdLd (base.sampleLp k c).1 c).2)) ∧
+    (base.Consistent → (∀ k c, base.sample k c ∈ Vec dim) → d.Consistent) :=
+  FlowsPf.flow_change_of_variables (FlowsPf.bnaf_flow_lawful dim depth bd act hact inverter key n invert hnet hperm)
+    (FlowsPf.bnaf_flow_ldAntisym dim depth bd act hact inverter key n invert hnet hperm) base
+
+theorem tri_spline_flow_ld_antisym (dim : ℕ) (m : ℝ) (key : ℕ → TriSplineNet ℝ × List ℕ) (n : ℕ) (invert : Bool)
+    (hnet : ∀ i < n, TriSplineOK dim m (key i).1) (hperm : ∀ i < n, PermKeyOK dim (key i).2) :
+    (triSplineFlowBij dim m key n invert).LdAntisym (Vec dim) :=
+  FlowsPf.tri_spline_flow_ldAntisym dim m key n invert hnet hperm
+
+theorem tri_spline_flow_change_of_variables (dim : ℕ) (m : ℝ) (key : ℕ → TriSplineNet ℝ × List ℕ) (n : ℕ) (invert : Bool)
+    (hnet : ∀ i < n, TriSplineOK dim m (key i).1) (hperm : ∀ i < n, PermKeyOK dim (key i).2) (base : VDist K ℝ) :
+    let b := triSplineFlowBij dim m key n invert
+    let d := triSplineFlow dim m key n invert base
+    (∀ x c, d.logProb x c = base.logProb (b.inv x c) c + (b.invLd x c).2) ∧
+    (∀ k c, d.sample k c = b.fwd (base.sample k c) c) ∧
+    (∀ k c, d.sampleLp k c = (b.fwd (base.sampleLp k c).1 c, (base.sampleLp k c).2 - (b.fwdLd (base.sampleLp k c).1 c).2)) ∧
+    (base.Consistent → (∀ k c, base.sample k c ∈ Vec dim) → d.Consistent) :=
+  FlowsPf.flow_change_of_variables (FlowsPf.tri_spline_flow_lawful dim m key n invert hnet hperm)
+    (FlowsPf.tri_spline_flow_ldAntisym dim m key n invert hnet hperm) base
+
+/-- what the `invert` flag does (the docstring's "True prioritises a faster `log_prob`"): with `invert = true` the
+flow's `inverse_and_log_det` — the method `log_prob` calls — IS the layer stack's `transform_and_log_det` (one forward
+pass through the layers), and `transform` — the method `sample` calls — is the stack's `inverse`; with `invert = false`
+the other way round. -/
+theorem coupling_flow_orientation (tf : List ℝ → Bij ℝ Unit ℝ) (dim : ℕ) (key : ℕ → (List ℝ → List ℝ) × List ℕ) (n : ℕ) :
+    (couplingFlowBij tf dim key n true).invLd = (couplingFlowBij tf dim key n false).fwdLd ∧
+    (couplingFlowBij tf dim key n true).fwd = (couplingFlowBij tf dim key n false).inv ∧
+    (couplingFlowBij tf dim key n true).inv = (couplingFlowBij tf dim key n false).fwd ∧
+    (couplingFlowBij tf dim key n true).fwdLd = (couplingFlowBij tf dim key n false).invLd :=
+  ⟨rfl, rfl, rfl, rfl⟩
+
+/-- non-vacuity: the 2-layer coupling flow on `ℝ³` of `C01.coupling_flow_instance` over ANY consistent base that
+samples vectors of length 3 is consistent, in both orientations -/
+theorem coupling_flow_instance (base : VDist K ℝ) (hc : base.Consistent) (hD : ∀ k c, base.sample k c ∈ Vec 3)
+    (invert : Bool) : (couplingFlow defaultTransformer 3 couplingKeys 2 invert base).Consistent :=
+  (coupling_flow_change_of_variables defaultTransformer defaultTransformer_lawful defaultTransformer_ldAntisym 3 (by norm_num)
+    couplingKeys 2 invert couplingKeys_perm base).2.2.2 hc hD
+
+end PremadeFlows
 
 end C03
